@@ -5,6 +5,7 @@ import ast
 import itertools
 
 from .. import astq
+from ..model import ClassRef
 from ..core import AnalysisError
 from ..minieval import Interp, Obj, Raises
 
@@ -39,7 +40,7 @@ def run(ctx, rep):
                 return iter([(0, 2), (2, 2)])
         # worlds need not be contiguous: 0, 3, 7 (inserted out of order)
         frames = {7: Obj('f7', get_data=lambda: 'DATA7'), 0: Obj('f0', get_data=lambda: 'DATA0'), 3: Obj('f3', get_data=lambda: 'DATA3')}
-        mdl = Obj('model', frames=frames, Meta=Obj('Meta', modal=modal), R=R())
+        mdl = Obj('model', __srcclass__=(m, ClassRef(MODELS, 'BaseModel')), frames=frames, Meta=Obj('Meta', modal=modal), R=R())
         nframes = len(frames)
         r = it.safe(f('BaseModel.get_data'), [mdl])
         if not modal:
@@ -55,7 +56,7 @@ def run(ctx, rep):
             rep.finding(R1, f'C20.R1/BaseModel.get_data/modal={modal}', m.loc(MODELS, f('BaseModel.get_data')), 'BaseModel.get_data', why)
     # --- Frame.get_data reads atomics / opaques / predicates of *this* frame
     calls = []
-    fr = Obj('frame', atomics={'ATOMICS': 1}, opaques={'OPAQUES': 1})
+    fr = Obj('frame', __srcclass__=(m, ClassRef(MODELS, 'BaseModel.Frame')), atomics={'ATOMICS': 1}, opaques={'OPAQUES': 1})
     fr._get_sentencemap_data = lambda base: (calls.append(base), ('SM', tuple(base)))[1]
     fr._get_predicates_data = lambda: 'PREDS'
     r = it.safe(f('BaseModel.Frame.get_data'), [fr])
@@ -74,7 +75,7 @@ def run(ctx, rep):
     R3 = rep.rule('C20.R3', 'every listing is sorted, whatever the insertion order')
     for order in itertools.permutations(['q', 'p', 'r']):
         base = {k: f'val-{k}' for k in order}
-        r = it.safe(f('BaseModel.Frame._get_sentencemap_data'), [Obj('frame'), base])
+        r = it.safe(f('BaseModel.Frame._get_sentencemap_data'), [Obj('frame', __srcclass__=(m, ClassRef(MODELS, 'BaseModel.Frame'))), base])
         vals = r.get('values') if isinstance(r, dict) else None
         ok = vals == [dict(input=k, output=f'val-{k}') for k in ('p', 'q', 'r')]
         rep.instance(R3, ok=ok, nontrivial=('sentencemap', order))
@@ -87,7 +88,7 @@ def run(ctx, rep):
     for many in (True, False):
         hv = []
         interp = Obj('interp', having=lambda *vals: (hv.append(vals), [('b',), ('a',)])[1])
-        fr = Obj('frame', predicates={'G': interp, 'F': interp}, model=Obj('model', Meta=Obj('Meta', many_valued=many)))
+        fr = Obj('frame', __srcclass__=(m, ClassRef(MODELS, 'BaseModel.Frame')), predicates={'G': interp, 'F': interp}, model=Obj('model', Meta=Obj('Meta', many_valued=many)))
         fr._get_predicate_data_part = lambda pred, tuples: it.call(f('BaseModel.Frame._get_predicate_data_part'), [fr, pred, tuples])
         out = it.generate(f('BaseModel.Frame._get_predicate_data_values'), [fr, 'F'])
         want_calls = [('T', 'B'), ('B', 'F')] if many else [('T', 'B')]
